@@ -32,6 +32,7 @@ package backtrace
 //    such an iteration has a nil call-stack trace. (A global write node is recognised
 //    by its In() edges being followed.)
 //@ func Visitor.visit
+//@   loops 20
 //@   property C03
 //@   option havoc:*
 //@   requires v != nil && s != nil && entrypoint != nil
